@@ -88,6 +88,10 @@ class Problem:
         else:
             self.src = [(-30, 10, 5, 20, 10)]
             self.freqs = [1.0, 2.0]
+        self.src_names = ['South', 'North'][:len(self.src)]
+        self.rec_names = ['Rz-mag', 'Rb', 'Ra']
+        self.freq_names = ['low', 'high'][:len(self.freqs)]
+        self.slot_keys = list(itertools.product(self.src_names, self.freq_names))
         self.n = len(self.src) * len(self.freqs)
         self.shape = (len(self.src), 3, len(self.freqs))
         self.W = [(r.randint(-8, 8, self.shape) + 1j * r.randint(-8, 8, self.shape)) / 8.0
@@ -119,13 +123,16 @@ class Problem:
 
     def make_sim(self, m, file_dir=None):
         import emg3d
-        src = {f'Tx{i+1}': (emg3d.TxElectricDipole(c) if i == 0 else emg3d.TxElectricPoint(c))
-               for i, c in enumerate(self.src)}
-        rec = {'Rx1': emg3d.RxElectricPoint((30, 20, -10, 0, 0)),
-               'Rx2': emg3d.RxElectricPoint((-20, -30, 20, 90, 0)),
-               'Rx3': emg3d.RxMagneticPoint((10, 30, -30, 0, 0))}
+        # user-named keys, deliberately NOT in alphabetical order, magnetic receiver first: the
+        # order of these dicts is the labelling of the data axes and must survive every round trip
+        src = {nm: (emg3d.TxElectricDipole(c) if i == 0 else emg3d.TxElectricPoint(c))
+               for i, (nm, c) in enumerate(zip(self.src_names, self.src))}
+        rec = {'Rz-mag': emg3d.RxMagneticPoint((10, 30, -30, 0, 0)),
+               'Rb': emg3d.RxElectricPoint((30, 20, -10, 0, 0)),
+               'Ra': emg3d.RxElectricPoint((-20, -30, 20, 90, 0))}
+        assert list(rec) == self.rec_names
         data = None if self.obs is None else self.obs.copy()
-        survey = emg3d.Survey(src, rec, list(self.freqs), data=data,
+        survey = emg3d.Survey(src, rec, dict(zip(self.freq_names, self.freqs)), data=data,
                               noise_floor=1e-16, relative_error=0.05)
         gkw = dict(gridding='same')
         if self.gridding == 'input':
@@ -135,8 +142,27 @@ class Problem:
             receiver_interpolation='linear', verb=-1, tqdm_opts=False, file_dir=file_dir,
             solver_opts=dict(tol=TOL_F, tol_gradient=TOL_G, maxit=60, verb=0, plain=True))
 
-    def slots(self, sim):
-        return list(itertools.product(sim.survey.sources.keys(), sim.survey.frequencies.keys()))
+    def slots(self, sim=None):
+        """Source-frequency slots BY LABEL, in the canonical order of the problem (whatever the
+        order in which a particular simulation holds its sources and frequencies)."""
+        return list(self.slot_keys)
+
+    def perm(self, sim):
+        """Canonical index of every source / receiver / frequency label of sim, in sim's own order."""
+        return ([self.src_names.index(k) for k in sim.survey.sources.keys()],
+                [self.rec_names.index(k) for k in sim.survey.receivers.keys()],
+                [self.freq_names.index(k) for k in sim.survey.frequencies.keys()])
+
+    def to_canon(self, sim, arr):
+        """Data-shaped array in sim's own axis order -> canonical label order (comparison BY LABEL)."""
+        ps, pr, pf = self.perm(sim)
+        out = np.empty_like(np.asarray(arr))
+        out[np.ix_(ps, pr, pf)] = arr
+        return out
+
+    def to_own(self, sim, arr):
+        ps, pr, pf = self.perm(sim)
+        return np.asarray(arr)[np.ix_(ps, pr, pf)]
 
     def _reference(self, m):
         s = self.make_sim(m)
@@ -265,7 +291,8 @@ class World:
                     else:
                         slot = sl.index((skey[id(d['source'])], fkey[float(d['frequency'])]))
                 else:
-                    slot = j
+                    own = list(itertools.product(sim.survey.sources.keys(), sim.survey.frequencies.keys()))
+                    slot = sl.index(own[j])
                 trace.extend([kind, slot, tk, int(d['efield'] is not None), self.cls_model(d['model'])])
             return orig(fun, items, max_workers=max_workers, **kw)
         pm.count = orig.count          # process_map refers to its own global name for the counter
@@ -300,9 +327,9 @@ class World:
                     ret = [1] + self.cls_grad(v)
                 elif name == 'jvec':
                     v = self._traced(sim, lambda: sim.jvec(p.Vv[a[0]].copy()))
-                    ret = [1] + self.cls_jvec(v)
+                    ret = [1] + self.cls_jvec(p.to_canon(sim, v))
                 elif name == 'jtvec':
-                    v = self._traced(sim, lambda: sim.jtvec(p.W[a[0]].copy()))
+                    v = self._traced(sim, lambda: sim.jtvec(p.to_own(sim, p.W[a[0]]).copy()))
                     ret = [1] + self.cls_grad(v)
                 elif name == 'get_efield':
                     v = self._traced(sim, lambda: sim.get_efield(*sl[a[0]]))
@@ -424,7 +451,7 @@ class World:
             else:
                 out += self.cls_field(val.field, 'ef', 7)
         out += [int(hasattr(sim, '_dict_bfield'))]
-        syn = sim.data.synthetic.data
+        syn = p.to_canon(sim, sim.data.synthetic.data)
         for i in range(p.n):
             sli = self.slot_slice(syn, i)
             if np.isnan(sli).all():
@@ -436,11 +463,11 @@ class World:
                     break
             else:
                 out += [13, 0, 0]
-        wts = sim.data.weights.data if 'weights' in sim.data.keys() else None
+        wts = p.to_canon(sim, sim.data.weights.data) if 'weights' in sim.data.keys() else None
         if 'residual' not in sim.data.keys():
             out += [0, 0, 0]
         else:
-            r = sim.data.residual.data
+            r = p.to_canon(sim, sim.data.residual.data)
             code = [13, 0, 0]
             for m in range(NM):
                 if close(r, p.ref[m]['residual']):
@@ -450,13 +477,36 @@ class World:
                     code = [9, 0, w]
             out += code
         out += [0, 0, 0] if wts is None else ([10, 0, 0] if close(wts, p.ref[0]['weights']) else [13, 0, 0])
-        out += [0, 0, 0] if 'jvec' not in sim.data.keys() else self.cls_jvec(sim.data.jvec.data)
+        out += [0, 0, 0] if 'jvec' not in sim.data.keys() else self.cls_jvec(p.to_canon(sim, sim.data.jvec.data))
         tol = sim.solver_opts.get('tol')
         out += [0 if tol == TOL_F else (1 if tol == TOL_G else 9)]
         return out
 
     def enc(self):
         return [self.enc_sim(s) for s in self.sims]
+
+    def survey_changed(self):
+        """The survey is fixed during a history: the observed data of every simulation, read BY
+        (source, receiver, frequency) LABEL, must be the problem's data; the key sets must be the
+        problem's.  Returns a description of the first deviation or None."""
+        p = self.p
+        for k, sim in enumerate(self.sims):
+            keys = (list(sim.survey.sources.keys()), list(sim.survey.receivers.keys()),
+                    list(sim.survey.frequencies.keys()))
+            if [sorted(x) for x in keys] != [sorted(p.src_names), sorted(p.rec_names), sorted(p.freq_names)]:
+                return f"simulation {k}: survey keys {keys}"
+            fr = [float(sim.survey.frequencies[f]) for f in p.freq_names]
+            if fr != [float(x) for x in p.freqs]:
+                return f"simulation {k}: frequency values by label {fr} instead of {list(p.freqs)}"
+            obs = p.to_canon(sim, sim.data.observed.data)
+            if not np.array_equal(obs, p.obs):
+                bad = np.argwhere(obs != p.obs)
+                i, j, f = (int(x) for x in bad[0])
+                return (f"simulation {k}: data.observed at label ({p.src_names[i]}, {p.rec_names[j]}, "
+                        f"{p.freq_names[f]}) is {obs[i, j, f]} instead of {p.obs[i, j, f]} "
+                        f"({len(bad)} of {obs.size} entries sit on wrong labels; sources "
+                        f"{keys[0]}, receivers {keys[1]}, frequencies {keys[2]})")
+        return None
 
     def shared_arrays(self, k_new, k_src):
         """Names of arrays of sim k_new that share memory with sim k_src."""
@@ -626,6 +676,11 @@ def property_fails(prob, file_mode, ops):
                     intended.append(intended[op[0]])
                 elif op[1] == 'setmodel' and ob[0] != 4:
                     intended[op[0]] = op[2]
+            changed = w.survey_changed()
+            if changed:
+                return {'step': j, 'op': op_text(op), 'observed': changed,
+                        'required': 'a copy / reloaded simulation has the survey of its original: same data '
+                                    'at the same (source, receiver, frequency) labels'}
             for k2, sm in enumerate(w.sims):
                 if w.enc_sim(sm)[0] != intended[k2]:
                     return {'step': j, 'op': op_text(op),
@@ -683,6 +738,20 @@ def property_fails(prob, file_mode, ops):
                             return {'step': len(ops), 'op': f'query synthetic@{k}',
                                     'observed': f'slot {i} tag {e[j0:j0+3]}',
                                     'required': f'synthetic data of a fresh simulation with model {m}'}
+        # finally: drop every computed result and recompute -- misfit and gradient must be those
+        # of a fresh simulation (catches anything stale or mislabelled that the caches masked)
+        for k in range(len(w.sims)):
+            ob = w.apply((k, 'clean', 'computed'))
+            for q, code in (('misfit', 3), ('gradient', 4)):
+                ob = w.apply((k, q))
+                m = intended[k]
+                if ob[0] == 4:
+                    return {'step': len(ops), 'op': f'query clean(computed); {q}@{k}',
+                            'observed': 'raises ' + w.last_exc, 'required': 'value of a fresh simulation'}
+                if ob[0] != 1 or ob[1:4] != [code, m, 0]:
+                    return {'step': len(ops), 'op': f'query clean(computed); {q}@{k}',
+                            'observed': f'{q} after clean+recompute has tag {ob[1:4]} (differs from the fresh one)',
+                            'required': f'{q} of a fresh simulation with model {m}'}
         return None
     finally:
         w.close()
@@ -790,7 +859,7 @@ def run_case_impl(c):
             shared = []
             if op[1] == 'export' and ob[0] == 3:
                 shared = w.shared_arrays(len(w.sims) - 1, op[0])
-            steps.append((ob, w.enc(), shared))
+            steps.append((ob, w.enc(), shared, w.survey_changed()))
     finally:
         w.close()
     return steps
@@ -816,7 +885,7 @@ def check_cases(cases, quirks, prefix='c12_h'):
             impl = run_case_impl(c)
             names = field_names(c['n'])
             nontrivial = False
-            for j, ((ob, enc, shared), (mob, menc)) in enumerate(zip(impl, model)):
+            for j, ((ob, enc, shared, changed), (mob, menc)) in enumerate(zip(impl, model)):
                 nsteps += 1
                 hist[c['ops'][j][1]] = hist.get(c['ops'][j][1], 0) + 1
                 if ob[0] == 4:
@@ -824,7 +893,10 @@ def check_cases(cases, quirks, prefix='c12_h'):
                 if len(ob) > 4 or len(enc) > 1:
                     nontrivial = True
                 d = None
-                if ob != mob:
+                if changed:
+                    d = {'what': 'survey changed: data no longer sit on their (source, receiver, frequency) labels',
+                         'impl': changed, 'model': 'the survey is fixed during a history'}
+                elif ob != mob:
                     d = {'what': 'observation (return value / solves issued) differs',
                          'impl': ob, 'model': mob}
                 elif enc != menc:
